@@ -250,6 +250,7 @@ struct WkdRun {
         keys.push_back(std::move(k));
         check_key(keys.back(), "C11", std::string(nd ? "nondelegable_qualifykey" : "qualifykey") + " parent " + pat_str(ppat) + " attrs " + list_str(attrs) + (omit_all ? "+omitAll" : ""));
         transition_case(nd ? "ndqualify" : "qualify", ppat, child, omit_all);
+        stay_closed_to_previous(keys.back(), ppat, std::string(nd ? "nondelegable_qualifykey" : "qualifykey") + " parent " + pat_str(ppat) + " attrs " + list_str(attrs));
     }
 
     // ADJUST parent | from-directives (l) then one or more to-directive blocks (l each)
@@ -280,8 +281,23 @@ struct WkdRun {
             // a wrong adjusted key breaks C14 (incremental = from scratch) and C11 (every key of a history incl. adjustment steps is well-formed)
             check_key(kk, env.focus == "C11" ? "C11" : "C14", "adjust_nondelegable parent " + pat_str(keys[pi].pat) + " from " + list_str(fromL) + " to " + list_str(to), b + 1 == blocks);
             transition_case("adjustnd", before, nxt, false);
+            stay_closed_to_previous(kk, before, "adjust_nondelegable from " + list_str(fromL) + " to " + list_str(to));
             if (b > 1) env.count("probe:adjust_chain_step");
         }
+    }
+
+    // C12, after a key-producing step: the new key must stay closed to a ciphertext for the pattern it came from (the parent's, or
+    // the list it was adjusted away from) whenever the two patterns differ modulo r. A step that leaves a removed attribute inside a0,
+    // or forgets to fold a newly fixed one in, opens exactly that ciphertext.
+    void stay_closed_to_previous(KeyM& k, const std::vector<Slot>& prev, const std::string& what) {
+        if (!(env.focus.empty() || env.focus == "C12") || k.tainted || k.rho.is_zero()) return;
+        if (exps_equal(exps_of_pattern(prev), exps_of_pattern(k.pat))) return;
+        std::vector<MAttr> L = list_of_pattern(prev); JAttrs ja(L, false);
+        GTv m, out; call_begin(mix3((uint64_t) plan.c("setup_seed"), (uint64_t) env.step, 0x12A)); R.jv_wk_random_gt(view, m.b, jv_rand_cb);
+        Buf ct(R.sz(JV_SZ_WK_CT)); call_begin(mix3((uint64_t) plan.c("setup_seed"), (uint64_t) env.step, 0x12B)); R.jv_wk_encrypt(view, ct, m.b, sys.params, &ja.l, jv_rand_cb);
+        env.lib_calls++; R.jv_wk_decrypt(view, out.b, ct, k.sk);
+        env.count("probe:new_key_tried_on_ciphertext_for_previous_pattern");
+        if (w.ct(out) == w.ct(m)) env.fail("C12", "decrypt:non-matching-key-must-not-open", strf("%s: the resulting key (pattern %s) still opens a ciphertext for the pattern it came from (%s)", what.c_str(), pat_str(k.pat).c_str(), pat_str(prev).c_str()));
     }
 
     // The precomputed product for list L as a deployment holds it: computed directly, or - every other time - kept from an
